@@ -89,6 +89,7 @@ static void exportCase(uint64_t idx, Rng &rng, CaseResult &r) {
   if (r.needSample()) r.sample = vf::J::obj().kv("what", "exportIspd -> coloquinte.py read_ispd round trip").kraw("circuit", circuitJson(c)).str();
   if (r.dumpOnly) return;
   std::string base = scratchDir() + "/p" + std::to_string((long)getpid()) + "_c" + std::to_string((unsigned long long)idx);
+  if (rng.chance(0.15)) base += rng.chance(0.5) ? ".v2" : ".placed.final";  // design names with dots
   if (rng.chance(0.1)) {
     // the directory has a past: an earlier revision of the design was exported under the same name and compressed in place (as
     // benchmarks are usually stored). The fresh export must be what is read back.
